@@ -1,0 +1,149 @@
+// Copyright Amazon.com, Inc. or its affiliates. All Rights Reserved.
+// SPDX-License-Identifier: Apache-2.0
+
+//! Verification hooks. Only compiled with the `verif` cargo feature, which no crate of this
+//! workspace enables. An external harness installs a `Hooks` implementation to observe (and
+//! schedule) every access to the shared memory segment. Without an installed implementation every
+//! function below forwards to the operation it replaces.
+
+use std::sync::atomic as real;
+use std::sync::OnceLock;
+
+/// Callbacks invoked on every access to the shared memory segment.
+pub trait Hooks: Sync + Send {
+    fn load_u16(&self, a: &real::AtomicU16, o: real::Ordering) -> u16;
+    fn store_u16(&self, a: &real::AtomicU16, v: u16, o: real::Ordering);
+    fn load_u32(&self, a: &real::AtomicU32, o: real::Ordering) -> u32;
+    fn store_u32(&self, a: &real::AtomicU32, v: u32, o: real::Ordering);
+    fn fence(&self, o: real::Ordering);
+    /// Copy `len` bytes out of the segment (`src`) into private memory (`dst`).
+    ///
+    /// # Safety
+    /// Both pointers are valid for `len` bytes.
+    unsafe fn data_read(&self, src: *const u8, dst: *mut u8, len: usize);
+    /// Copy `len` bytes of private memory (`src`) into the segment (`dst`).
+    ///
+    /// # Safety
+    /// Both pointers are valid for `len` bytes.
+    unsafe fn data_write(&self, dst: *mut u8, src: *const u8, len: usize);
+    fn map(&self, addr: *mut u8, len: usize, writable: bool);
+    fn unmap(&self, addr: *mut u8, len: usize);
+    fn stop_point(&self, name: &'static str);
+}
+
+static HOOKS: OnceLock<&'static dyn Hooks> = OnceLock::new();
+
+/// Install the process-wide hooks. Returns false if hooks were already installed.
+pub fn install(hooks: &'static dyn Hooks) -> bool {
+    HOOKS.set(hooks).is_ok()
+}
+
+#[inline]
+fn hooks() -> Option<&'static dyn Hooks> {
+    HOOKS.get().copied()
+}
+
+/// Drop-in replacement for the subset of `std::sync::atomic` used by this crate.
+pub mod atomic {
+    use super::{hooks, real};
+    pub use std::sync::atomic::Ordering;
+
+    #[repr(transparent)]
+    #[derive(Debug)]
+    pub struct AtomicU16(real::AtomicU16);
+
+    impl AtomicU16 {
+        pub fn load(&self, o: Ordering) -> u16 {
+            match hooks() {
+                Some(h) => h.load_u16(&self.0, o),
+                None => self.0.load(o),
+            }
+        }
+        pub fn store(&self, v: u16, o: Ordering) {
+            match hooks() {
+                Some(h) => h.store_u16(&self.0, v, o),
+                None => self.0.store(v, o),
+            }
+        }
+        pub fn into_inner(self) -> u16 {
+            self.0.into_inner()
+        }
+    }
+
+    #[repr(transparent)]
+    #[derive(Debug)]
+    pub struct AtomicU32(real::AtomicU32);
+
+    impl AtomicU32 {
+        pub fn load(&self, o: Ordering) -> u32 {
+            match hooks() {
+                Some(h) => h.load_u32(&self.0, o),
+                None => self.0.load(o),
+            }
+        }
+        pub fn store(&self, v: u32, o: Ordering) {
+            match hooks() {
+                Some(h) => h.store_u32(&self.0, v, o),
+                None => self.0.store(v, o),
+            }
+        }
+        pub fn into_inner(self) -> u32 {
+            self.0.into_inner()
+        }
+    }
+
+    pub fn fence(o: Ordering) {
+        match hooks() {
+            Some(h) => h.fence(o),
+            None => real::fence(o),
+        }
+    }
+}
+
+/// Replacement for `ptr.read_volatile()` on the record stored in the segment.
+///
+/// # Safety
+/// `src` is valid for reads of `T`.
+pub unsafe fn data_read<T: Copy>(src: *const T) -> T {
+    match hooks() {
+        Some(h) => {
+            let mut out = std::mem::MaybeUninit::<T>::uninit();
+            h.data_read(src.cast(), out.as_mut_ptr().cast(), std::mem::size_of::<T>());
+            out.assume_init()
+        }
+        None => src.read_volatile(),
+    }
+}
+
+/// Replacement for `ptr.write(value)` on the record stored in the segment.
+///
+/// # Safety
+/// `dst` is valid for writes of `T`.
+pub unsafe fn data_write<T: Copy>(dst: *mut T, value: &T) {
+    match hooks() {
+        Some(h) => h.data_write(
+            dst.cast(),
+            (value as *const T).cast(),
+            std::mem::size_of::<T>(),
+        ),
+        None => dst.write(*value),
+    }
+}
+
+pub fn map(addr: *mut u8, len: usize, writable: bool) {
+    if let Some(h) = hooks() {
+        h.map(addr, len, writable)
+    }
+}
+
+pub fn unmap(addr: *mut u8, len: usize) {
+    if let Some(h) = hooks() {
+        h.unmap(addr, len)
+    }
+}
+
+pub fn stop_point(name: &'static str) {
+    if let Some(h) = hooks() {
+        h.stop_point(name)
+    }
+}
